@@ -79,20 +79,21 @@ func short(b []byte) string {
 }
 
 type seqDriver struct {
-	c      core.Case
-	prop   string
-	r      *rand.Rand
-	res    *core.Result
-	dir    string
-	cfg    originium.Config
-	db     *originium.DB
-	m      *kvModel
-	keys   []string
-	trace  []string
-	reads  int
-	nopen  int
-	ntxn   int
-	insitu struct {
+	c         core.Case
+	prop      string
+	r         *rand.Rand
+	res       *core.Result
+	dir       string
+	cfg       originium.Config
+	db        *originium.DB
+	m         *kvModel
+	keys      []string
+	trace     []string
+	reads     int
+	nopen     int
+	scribbled int
+	ntxn      int
+	insitu    struct {
 		sync.Mutex
 		msgs []string
 	}
@@ -191,14 +192,33 @@ func tailStr(s []string, n int) []string {
 
 func (d *seqDriver) commit(ws []seqWrite) bool {
 	var err error
+	// the engine gets buffers of its own; once Update has returned they belong to the caller again,
+	// who reuses them (half of the time): what was committed must not change with them
+	bufs := make([][]byte, len(ws))
+	for i, w := range ws {
+		if w.Tag != "" {
+			bufs[i] = append(make([]byte, 0, len(w.Val)+8), w.Val...)
+		}
+	}
+	defer func() {
+		if d.r.Intn(2) == 0 {
+			for _, b := range bufs {
+				b = b[:cap(b)]
+				for j := range b {
+					b[j] = 0xAA
+				}
+			}
+			d.scribbled++
+		}
+	}()
 	p := eng.Safely(func() {
 		err = d.db.Update(func(tx *originium.Txn) error {
-			for _, w := range ws {
+			for i, w := range ws {
 				var e error
 				if w.Tag == "" {
 					e = tx.Delete(w.Key)
 				} else {
-					e = tx.Set(w.Key, w.Val)
+					e = tx.Set(w.Key, bufs[i])
 				}
 				if e != nil {
 					return e
@@ -524,6 +544,7 @@ func finishSeq(d *seqDriver, res *core.Result, before map[string]int64, reopens,
 	}
 	res.AddObs("txns", int64(d.ntxn))
 	res.AddObs("reads", int64(d.reads))
+	res.AddObs("commits_whose_value_buffers_were_reused_afterwards", int64(d.scribbled))
 	if d.c.Int("wide", 0) == 1 {
 		res.AddObs("cases_wide_config_range", 1)
 	}
